@@ -15,7 +15,7 @@ from sx.core import ite, floor_, sym_eq, or_, and_, Sym, where
 
 PROPERTY = "C09"
 LEVEL = "model_checking"
-BOUNDS = {"cells_per_series": "N<=3", "index_shapes": "same / shifted by 1 h / disjoint / longer / tz-aware UTC / naive",
+BOUNDS = {"cells_per_series": "N<=3", "index_shapes": "same / shifted by 1 h / disjoint / longer / tz-aware UTC / naive / same first stamp and length with an hour missing in one or both operands",
           "unit_pairs": "GB-MB, hour-min, W-kW, dimensionless-percent (compatible); GB-hour, W-dimensionless, cpu_core-gpu, gpu-dimensionless (incompatible "
                         "for + -, fine for * /)", "shift": "[0, 3 h]",
           "operators": "+ - * / and reflected, sum max abs ceil neg copy round to shift np_compared_with "
@@ -28,8 +28,9 @@ T0 = datetime(2025, 1, 1)
 HOUR = timedelta(hours=1)
 
 
-def mk(ctx, kind, name, unit, n=2, offset=0, tz=None):
-    """operand factory -> (explainable object or number, description)"""
+def mk(ctx, kind, name, unit, n=2, offset=0, tz=None, skip=()):
+    """operand factory -> (explainable object or number, description); skip: positions of hours left out of an hourly
+    operand's index (n values over n + len(skip) hours: what convert_to_utc yields across the end of summer time)"""
     if kind == "empty":
         return EmptyExplainableObject()
     if kind == "zero":
@@ -40,7 +41,13 @@ def mk(ctx, kind, name, unit, n=2, offset=0, tz=None):
     if kind == "hourly":
         vals = [ctx.var(f"{name}[{i}]", lo=-1000, hi=1000, nice=(1, 50)) for i in range(n)]
         start = T0 + offset * HOUR
-        df = create_hourly_usage_df_from_list(vals, start_date=start, pint_unit=u(unit))
+        if skip:
+            it = iter(vals)
+            full = [0 if i in skip else next(it) for i in range(n + len(skip))]
+            df = create_hourly_usage_df_from_list(full, start_date=start, pint_unit=u(unit))
+            df = df.drop(index=[df.index[i] for i in skip])
+        else:
+            df = create_hourly_usage_df_from_list(vals, start_date=start, pint_unit=u(unit))
         if tz:
             df = df.tz_localize(tz)
         return ExplainableHourlyQuantities(df, label=f"hourly {name}")
@@ -132,9 +139,14 @@ def check_result(ctx, res, exp, lab):
 def h_binary(ctx, op, ka, ua, kb, ub, shape="same", n=2):
     off_b, n_b, tz_a, tz_b = {"same": (0, n, None, None), "shifted": (1, n, None, None), "disjoint": (n + 1, n, None, None),
                               "longer": (0, n + 1, None, None), "utc": (0, n, "UTC", "UTC"),
-                              "mixed_tz": (0, n, "UTC", None)}[shape]
-    a = mk(ctx, ka, "a", ua, n, 0, tz_a)
-    b = mk(ctx, kb, "b", ub, n_b, off_b, tz_b)
+                              "mixed_tz": (0, n, "UTC", None),
+                              # same first stamp, same number of values, not the same hours
+                              "hole": (0, n, None, None), "hole_utc": (0, n, "UTC", "UTC"), "hole_both": (0, n, "UTC", "UTC"),
+                              "hole_left": (0, n, "UTC", "UTC")}[shape]
+    skip_a = {"hole_both": (1,), "hole_left": (n - 1,)}.get(shape, ())
+    skip_b = {"hole": (n - 1,), "hole_utc": (1,), "hole_both": (n - 1,)}.get(shape, ())
+    a = mk(ctx, ka, "a", ua, n, 0, tz_a, skip=skip_a if ka == "hourly" else ())
+    b = mk(ctx, kb, "b", ub, n_b, off_b, tz_b, skip=skip_b if kb == "hourly" else ())
     A0, B0 = pv(a), pv(b)
     exp = expected(op, A0, B0)
     if op in ("+", "-") and ((ua, ub) in INCOMPAT or (ub, ua) in INCOMPAT) and ka != "empty" and kb != "empty" \
@@ -305,8 +317,8 @@ def h_helper(ctx, helper, unit="GB", n=3, unit2=None, shape="same"):
             ctx.eq(R[1].get(t, 0), exp.get(t, 0), f"{lab}: every value moved by floor(d/1h) hours")
         ctx.eq(sum(R[1].values()), sum(cells), f"{lab}: total kept")
     elif helper in ("ew_max", "ew_min"):
-        off, n2 = {"same": (0, n), "shifted": (1, n), "longer": (0, n + 1)}[shape]
-        g = mk(ctx, "hourly", "g", unit2 or unit, n2, off)
+        off, n2 = {"same": (0, n), "shifted": (1, n), "longer": (0, n + 1), "hole": (0, n)}[shape]
+        g = mk(ctx, "hourly", "g", unit2 or unit, n2, off, skip=(n - 1,) if shape == "hole" else ())
         G0 = pv(g)
         try:
             r = h.np_compared_with(g, "max" if helper == "ew_max" else "min")
@@ -353,7 +365,8 @@ def plan(tier, seed):
             for ua, ub in pairs:
                 shapes = ["same"]
                 if ka == "hourly" and kb == "hourly":
-                    shapes = ["same", "shifted", "disjoint", "longer", "utc", "mixed_tz"] if (ua, ub) == pairs[0] or tier == "thorough" else ["same", "shifted"]
+                    shapes = ["same", "shifted", "disjoint", "longer", "utc", "mixed_tz", "hole", "hole_utc", "hole_both", "hole_left"] \
+                        if (ua, ub) == pairs[0] or tier == "thorough" else ["same", "shifted", "hole_utc"]
                 for sh in shapes:
                     p.append(("binary", dict(op=op, ka=ka, ua=ua, kb=kb, ub=ub, shape=sh)))
             for ua, ub in INCOMPAT:
@@ -371,7 +384,7 @@ def plan(tier, seed):
     p += [("helper", dict(helper="to", unit="GB", unit2="MB")), ("helper", dict(helper="to", unit="hour", unit2="s")),
           ("helper", dict(helper="compare_max", unit="GB", unit2="MB")), ("helper", dict(helper="compare_max", unit="W", unit2="W"))]
     for hp in ("ew_max", "ew_min"):
-        for sh in ("same", "shifted", "longer"):
+        for sh in ("same", "shifted", "longer", "hole"):
             p.append(("helper", dict(helper=hp, unit="GB", unit2="GB", shape=sh, n=2)))
         p.append(("helper", dict(helper=hp, unit="GB", unit2="MB", shape="same", n=2)))
     return p
